@@ -30,7 +30,7 @@ FLUSH = "handler:handle_smartsleep"
 CTOR = "__init__:Gateway.create_message_to_set_sensor_value"
 
 
-def queue_access(analysis: Analysis, res: RuleResult) -> None:
+def queue_access(analysis: Analysis, res: RuleResult, rule: str = "C08-R1") -> None:
     n = 0
     for mod in common.core_modules(analysis):
         parents = {}
@@ -56,7 +56,7 @@ def queue_access(analysis: Analysis, res: RuleResult) -> None:
                 kind = f"other:{type(par).__name__}"
             n += 1
             ok = kind in ("append", "popleft", "truth-test", "init")
-            res.add("C08-R1", f"{fn} / queue access `{kind}`", ok, common.where(analysis, mod, node), "FIFO discipline: producers append, consumers popleft" if ok else f"queue is accessed by `{unparse(par)[:60]}`: order or exactly-once delivery is no longer guaranteed by construction")
+            res.add(rule, f"{fn} / queue access `{kind}`", ok, common.where(analysis, mod, node), "FIFO discipline: producers append, consumers popleft" if ok else f"queue is accessed by `{unparse(par)[:60]}`: order or exactly-once delivery is no longer guaranteed by construction")
     if n < 6:
         raise AnalysisError(f"C08-R1: only {n} queue accesses found")
 
@@ -243,6 +243,27 @@ def accept_worker(analysis: Analysis, spec) -> dict:
     return {"ctx": ctx.name, "rows": rows}
 
 
+def desired_store_worker(analysis: Analysis, spec) -> dict:
+    """Sensor.set_child_desired_state: a call that returns normally has recorded the caller's value."""
+    ctx = analysis.context(*spec)
+    it = analysis.new_interp(ctx)
+    st = it.new_state()
+    sensor = Sym(("root", "S"), ("cls", "sensor:Sensor"))
+    # the value type is whatever the caller passed (the API converts with int(): "2" is as good as 2)
+    args = [Sym(("root", "a_child"), "int"), Sym(("root", "a_vtype"), None), Sym(("root", "a_value"), None)]
+    rows = []
+    for out in analysis.run_root(it, "sensor:Sensor.set_child_desired_state", args, sensor, st):
+        kind, s, v = out
+        if kind != "val":
+            continue
+        stores = [e for e in s.events if e.kind == "setitem" and isinstance(e.recv, V) and ".new_state" in render(e.recv.key()) and render(e.recv.key()).endswith(".values")]
+        mine = [e for e in stores if len(e.args) == 2 and repr(args[1].key()) in repr(e.args[0].key()) and e.args[1].key() == args[2].key()]
+        ok = bool(mine)
+        int_key = all(it.ext.is_intlike(it, s, e.args[0]) for e in mine)
+        rows.append({"ok": ok, "int_key": int_key, "key": repr(mine[0].args[0].key())[:80] if mine else None, "n": len(stores), "witness": describe_path(out, 14)})
+    return {"rows": rows}
+
+
 def ctor_validates_with_gateway_version(analysis: Analysis, res: RuleResult, rule: str = "C08-R5") -> None:
     info = analysis.p.func(CTOR)
     calls = [c for c in common.calls_in(info.node, "validate")]
@@ -315,6 +336,13 @@ def accept_rule(analysis: Analysis, res: RuleResult, rule: str) -> None:
             res.add(rule, "__init__:Gateway.set_child_value / desired value recorded only after the flush's constructor accepted it", ok, "mysensors/__init__.py", "create_message_to_set_sensor_value(sensor, child, value_type, value) completed before the store" if ok else "a desired value is recorded without having been validated the way the flush will build it: accepted at call time, may fail at wake-up", r["witness"] if not ok else None, context=summ["ctx"])
             res.add(rule, "__init__:Gateway.set_child_value / records the caller's value under the caller's value type", r["stored_ok"], "mysensors/sensor.py", "values[value_type] = value", r["witness"] if not r["stored_ok"] else None, context=summ["ctx"])
     ctor_validates_with_gateway_version(analysis, res, rule)
+    for summ in common.pmap(analysis, desired_store_worker, [(analysis.versions[-1], "serial", "sync")]):
+        if not summ["rows"]:
+            res.add(rule, "sensor:Sensor.set_child_desired_state / an accepted desired value is recorded", False, "mysensors/sensor.py", "no path of set_child_desired_state returns normally")
+        for r in summ["rows"]:
+            if r["ok"]:
+                res.add(rule, "sensor:Sensor.set_child_desired_state / the desired value is recorded under the integer value type (the key domain of reported values, which the flush iterates)", r["int_key"], "mysensors/sensor.py", f"key {r['key']}" if r["int_key"] else f"recorded under the caller's unconverted value type {r['key']}: a value set with value_type \"2\" is accepted, stored under the string key and never found by the wake-up flush", r["witness"] if not r["int_key"] else None)
+            res.add(rule, "sensor:Sensor.set_child_desired_state / every call that returns normally has recorded values[value_type] = value for the child", r["ok"], "mysensors/sensor.py", "new_state[child].values[value_type] = value" if r["ok"] else "a path returns normally without recording the caller's value: the value is accepted but never sent at wake-up, and an older pending value is not replaced", r["witness"] if not r["ok"] else None)
 
 
 def run(analysis: Analysis, tier: str) -> RuleResult:
